@@ -327,6 +327,8 @@ impl<'a> Ctx<'a> {
         match self.ret {
             RetMode::Plain if self.prog.is_some() => Ok(L::app(&format!("{}.ret", self.prog.as_ref().unwrap().ns_lean), vec![v])),
             RetMode::Plain => Ok(v),
+            // flexprog.rs: a function in interaction form that returns `()` answers its updated `&mut` parameter
+            RetMode::MutSelfUnit if self.prog.is_some() && self.ext.block => Ok(L::app(&format!("{}.ret", self.prog.as_ref().unwrap().ns_lean), vec![self_l()?])),
             RetMode::MutSelfUnit => self_l(),
             // blockmod.rs: a function in interaction form whose `&mut` slice parameter is returned with the result
             RetMode::MutSelfVal if self.prog.is_some() => Ok(L::app(&format!("{}.ret", self.prog.as_ref().unwrap().ns_lean), vec![L::Tuple(vec![self_l()?, v])])),
